@@ -13,6 +13,7 @@ try:
     from rustworkx_utils import RWXNode
 except ImportError:
     RWXNode = None
+from typing import ForwardRef
 from typing_extensions import (
     List,
     Optional,
@@ -568,8 +569,15 @@ class ClassDiagram:
 
                 association_type = Association
                 if wrapped_field.is_role_taker and issubclass(clazz.clazz, Role):
-                    role_taker_type = get_generic_type_param(clazz.clazz, Role)[0]
-                    if role_taker_type is target_type:
+                    type_parameters = get_generic_type_param(clazz.clazz, Role)
+                    # (none for a class that derives from Role without saying whose role it is)
+                    role_taker_type = type_parameters[0] if type_parameters else None
+                    if isinstance(role_taker_type, (str, ForwardRef)):
+                        # Role["Person"]: written as a forward reference
+                        name = getattr(role_taker_type, "__forward_arg__", role_taker_type)
+                        if name.split(".")[-1] == target_type.__name__:
+                            association_type = HasRoleTaker
+                    elif role_taker_type is target_type:
                         association_type = HasRoleTaker
 
                 relation = association_type(
